@@ -87,6 +87,9 @@ def isTarget (c : FnCode) (ip : Nat) : Bool :=
     | .jump l | .jumpIfFalse l | .setTry _ l => l == ip
     | _ => false
 
+/-- Results of a host call: the list-literal helper returns the list, `@trigger` returns nothing. -/
+def hostResults (name : String) : Nat := if name == "__internal_list_push" then 1 else 0
+
 /-- Admissibility of instruction `i` at index `ip` under annotation `a`: `none` if the
 instruction is not acceptable there, else the number of operands it removes (also on its
 exceptional exit) and the annotations its successors must carry.
@@ -111,7 +114,14 @@ def succs (sig : String → Option (Nat × Nat)) (name : String) (c : FnCode) (r
       if 2 + n ≤ a.h ∧ isTarget c ip = false then some (2 + n, [(ip + 1, { a with h := a.h - (2 + n) + r })])
       else none
     | none => none
-  | .hostCall _ | .spawn _ =>
+  | .hostCall name =>
+    match argcAt c ip with
+    | some n =>
+      if 1 + n ≤ a.h ∧ isTarget c ip = false then
+        some (1 + n, [(ip + 1, { a with h := a.h - (1 + n) + hostResults name })])
+      else none
+    | none => none
+  | .spawn _ =>
     match argcAt c ip with
     | some n =>
       if 1 + n ≤ a.h ∧ isTarget c ip = false then some (1 + n, [(ip + 1, { a with h := a.h - (1 + n) + 1 })])
